@@ -239,6 +239,8 @@ func (e *Exec) zzIntrinsic(name string, args []Value) (Value, bool) {
 		w := int(t.S)
 		v := r.concretize(e, b.ZExt(t, 64), "zzConc")
 		return b.ConstU(w, uint64(v)), true
+	case "zzSymbolic":
+		return b.Bool(true), true
 	case "zzAssume":
 		r.assume(e, e.termOf(args[0]), "")
 		// assumption may make the path infeasible; check lazily at next query
